@@ -100,8 +100,38 @@ func (ce *containment) relTestHolds(fn *ssa.Function, st *PState, o *PathOracle,
 			if st.Get(z, o) != want {
 				return
 			}
+			// the first element cut out by position: first := rel; if i := strings.IndexRune(rel, sep); i >= 0 { first = rel[:i] }
+			isSepIndex := func(v ssa.Value) *ssa.Call {
+				ic, ok := v.(*ssa.Call)
+				if !ok || len(ic.Call.Args) != 2 {
+					return nil
+				}
+				switch callName(ic) {
+				case "strings.IndexRune", "strings.IndexByte", "strings.Index":
+					if st.canon(ic.Call.Args[0]) == rc && isSepString(ic.Call.Args[1]) {
+						return ic
+					}
+				}
+				return nil
+			}
+			if sl, ok := st.canon(other).(*ssa.Slice); ok && sl.Low == nil && sl.High != nil && st.canon(sl.X) == rc && isSepIndex(st.canon(sl.High)) != nil {
+				firstOK = true // rel[:i] for the position i of the first separator
+				return
+			}
 			if st.canon(other) == rc {
 				dotsOK = true
+				// … and on this path rel is known to hold no separator: it is its own first element
+				allInstrs(fn, func(w ssa.Instruction) {
+					cmp, ok := w.(*ssa.BinOp)
+					if !ok || isSepIndex(cmp.X) == nil {
+						return
+					}
+					if k, isK := constInt(cmp.Y); isK && k == 0 {
+						if (cmp.Op == token.GEQ && st.Get(cmp, o) == AvNil) || (cmp.Op == token.LSS && st.Get(cmp, o) == AvNonNil) {
+							firstOK = true
+						}
+					}
+				})
 				return
 			}
 			// Split(rel, sep)[0] / SplitN(rel, sep, n)[0]
